@@ -129,8 +129,41 @@ def fam_waitn_cv(rng):
     return lines
 
 
+def fam_cv_rsignal(rng):
+    """Wakers that do NOT hold the mutex in write mode (they signal while holding it in read mode, or
+    after unlocking while others hold it) with readers coming and going and try-lock pollers: this is
+    where wake_waiters transfers cv waiters to the mutex queue under the queue spinlock only."""
+    lines = ["sem %s" % rng.choice(["counting", "binary"]), "objs mu=1 cv=1 var=1", "var x0 0 mu0"]
+    for _ in range(rng.choice([1, 2, 3])):
+        rd = rng.random() < 0.3
+        lines.append("fiber %s mu0 ; await cv0 mu0 x0 1 %s ; %s mu0" % ("rlock" if rd else "lock", rng.choice(["inf", "p90000", "p2000"]), "runlock" if rd else "unlock"))
+    wake = rng.choice(["broadcast cv0", "broadcast cv0", "signal cv0 ; signal cv0 ; broadcast cv0"])
+    if rng.random() < 0.6:
+        lines.append("fiber lock mu0 ; wr x0 1 ; unlock mu0 ; rlock mu0 ; %s ; runlock mu0" % wake)
+    else:
+        lines.append("fiber lock mu0 ; wr x0 1 ; unlock mu0 ; yield ; %s" % wake)
+    for _ in range(rng.choice([1, 2, 3])):
+        lines.append("fiber " + " ; ".join(["yield"] * rng.randrange(0, 3) + ["rlock mu0", "rd x0", "yield", "yield", "rd x0", "runlock mu0"] * rng.choice([1, 2])))
+    if rng.random() < 0.7:
+        lines.append("fiber " + " ; ".join(["trylock mu0", "unlock_if mu0", "yield"] * 4))
+    return lines
+
+
+def fam_starve(rng):
+    """A victim locker among many barging threads that lock/unlock repeatedly (C14): victim writer among
+    writers, writer among readers, reader among writers."""
+    kind = rng.choice(["ww", "wr", "rw"])
+    lines = ["sem %s" % rng.choice(["counting", "binary"]), "objs mu=1 var=1", "var x0 0 mu0"]
+    lines.append("fiber yield ; %s mu0 ; %s mu0" % (("lock", "unlock") if kind[0] == "w" else ("rlock", "runlock")))
+    for _ in range(rng.choice([3, 4, 5])):
+        acq, rel = ("lock", "unlock") if kind[1] == "w" else ("rlock", "runlock")
+        n = rng.choice([6, 10, 14])
+        lines.append("fiber " + " ; ".join(["%s mu0 ; yield ; %s mu0" % (acq, rel)] * n))
+    return lines
+
+
 def fam_mixed(rng):
-    return rng.choice([fam_core, fam_cv, fam_cv_raw, fam_muwait, fam_waitn_cv])(rng)
+    return rng.choice([fam_core, fam_cv, fam_cv_raw, fam_muwait, fam_waitn_cv, fam_cv_rsignal])(rng)
 
 
 def fam_once(rng):
@@ -192,7 +225,7 @@ def fam_ctr(rng):
     return lines
 
 
-FAMILIES = {"ctr": fam_ctr, "once": fam_once, "futex": fam_futex,"core": fam_core, "cv": fam_cv, "cv_raw": fam_cv_raw, "muwait": fam_muwait, "debug": fam_debug,
+FAMILIES = {"starve": fam_starve, "cv_rsignal": fam_cv_rsignal, "ctr": fam_ctr, "once": fam_once, "futex": fam_futex,"core": fam_core, "cv": fam_cv, "cv_raw": fam_cv_raw, "muwait": fam_muwait, "debug": fam_debug,
             "waitn_cv": fam_waitn_cv, "mixed": fam_mixed}
 
 
